@@ -163,6 +163,36 @@ func modAllowed(k NKind, a, b *big.Int, got outcome) (bool, string) {
 	return false, req
 }
 
+// libDivEdge: the input class of the known division defect of github.com/onflow/fixed-point v0.1.1
+// (raw128.go div192by128, "edge case" branch): 128-bit kinds, divisor not reducible to 64 bits by stripping
+// trailing zero bits, truncated quotient |num|/|den| with low 64-bit word 2^64-2.
+func libDivEdge(k NKind, num, den *big.Int) bool {
+	if k.Bits != 128 || den.Sign() == 0 {
+		return false
+	}
+	d := new(big.Int).Abs(den)
+	d.Rsh(d, d.TrailingZeroBits())
+	if d.BitLen() <= 64 {
+		return false
+	}
+	T := new(big.Int).Quo(new(big.Int).Abs(num), new(big.Int).Abs(den))
+	low := new(big.Int).And(T, new(big.Int).Sub(two(64), big.NewInt(1)))
+	return low.Cmp(new(big.Int).Sub(two(64), big.NewInt(2))) == 0
+}
+
+// edgeDeviation: the observed result is what the defect produces: a magnitude one or two units too
+// large, or the overflow that follows from it
+func edgeDeviation(got, want outcome) bool {
+	if got.cls != "" {
+		return got.cls == lib.EOverflow || got.cls == lib.EUnderflow
+	}
+	if want.cls != "" {
+		return false
+	}
+	d := new(big.Int).Sub(new(big.Int).Abs(got.z), new(big.Int).Abs(want.z))
+	return d.Sign() > 0 && d.Cmp(big.NewInt(2)) <= 0
+}
+
 // fixedLattice: boundary values of a fixed-point kind (carried integers)
 func fixedLattice(k NKind) []*big.Int {
 	seen := map[string]bool{}
@@ -185,12 +215,12 @@ func fixedLattice(k NKind) []*big.Int {
 	for _, i := range []int64{0, 1, 2, 3, 5, 7, 10} {
 		pm(big.NewInt(i))
 	}
-	pm(S)                                      // 1.0
-	pm(new(big.Int).Mul(S, big.NewInt(2)))     // 2.0
-	pm(new(big.Int).Quo(S, big.NewInt(2)))     // 0.5
-	pm(new(big.Int).Quo(S, big.NewInt(3)))     // 0.333..
-	pm(new(big.Int).Mul(S, big.NewInt(10)))    // 10.0
-	pm(new(big.Int).Sqrt(S))                   // sqrt of one unit product
+	pm(S)                                               // 1.0
+	pm(new(big.Int).Mul(S, big.NewInt(2)))              // 2.0
+	pm(new(big.Int).Quo(S, big.NewInt(2)))              // 0.5
+	pm(new(big.Int).Quo(S, big.NewInt(3)))              // 0.333..
+	pm(new(big.Int).Mul(S, big.NewInt(10)))             // 10.0
+	pm(new(big.Int).Sqrt(S))                            // sqrt of one unit product
 	pm(new(big.Int).Sqrt(new(big.Int).Mul(k.Max(), S))) // squares straddle the maximum
 	pm(new(big.Int).Quo(k.Max(), big.NewInt(2)))
 	pm(new(big.Int).Quo(k.Max(), S))
@@ -216,8 +246,8 @@ func c15(sum *lib.Summary) {
 	nrand, nstraddle, ntriple, nscript := 250, 120, 500, 140
 	coqEvery := 170
 	if *tier == "thorough" {
-		nrand, nstraddle, ntriple, nscript = 40000, 8000, 60000, 3000
-		coqEvery = 60
+		nrand, nstraddle, ntriple, nscript = 6000, 2500, 20000, 1500
+		coqEvery = 70
 	}
 	sum.Rule = "Fix64, UFix64, Fix128, UFix128 x {+,-,*,/,%, negate, saturatingAdd/Subtract/Multiply/Divide (as declared by sema), multiplyDivide x 4 rounding rules, < <= > >= ==}: " +
 		"all pairs of a boundary lattice (0, +-1..3 units, +-0.5, +-1.0, +-2.0, +-10.0, sqrt(max) and sqrt(unit) neighbours, largest integer, max/2, min, max, +-1, 2^31..2^127 neighbours), " +
@@ -261,12 +291,18 @@ func c15(sum *lib.Summary) {
 			plain := oracleArith(k, op, a, b, false)
 			note(fmt.Sprintf("%s %s %s %s", k.Name, name, a, b), plain.cls != "" || inexact,
 				map[string]string{"type": k.Name, "expr": fmt.Sprintf("%s %s %s", lit(k, a), name, lit(k, b)), "observed": renderOutcome(k, got)})
+			known := false
 			if !got.eq(want) {
-				sum.Fail(fmt.Sprintf("fix-arith:%s:%s", k.Name, name),
+				key := fmt.Sprintf("fix-arith:%s:%s", k.Name, name)
+				if op.Coq == "FDiv" && libDivEdge(k, new(big.Int).Mul(a, k.Factor()), b) && edgeDeviation(got, want) {
+					key = fmt.Sprintf("fix128-division-edge:%s:%s", k.Name, name)
+					known = true
+				}
+				sum.Fail(key,
 					fmt.Sprintf("%s: %s %s %s = %s, required %s", k.Name, lit(k, a), name, lit(k, b), renderOutcome(k, got), renderOutcome(k, want)),
 					map[string]any{"type": k.Name, "op": name, "a": lit(k, a), "b": lit(k, b), "observed": renderOutcome(k, got), "required": renderOutcome(k, want)})
 			}
-			if toCoq(force) {
+			if toCoq(force) && !known {
 				cw.Add(fmt.Sprintf("%s %s %s %s %s %s %s", ctor, k.CoqKind(), op.Coq, lib.Z(a), lib.Z(b), got.coq(), want.coq()),
 					map[string]any{"type": k.Name, "op": name, "a": lit(k, a), "b": lit(k, b), "observed": renderOutcome(k, got), "oracle": renderOutcome(k, want)})
 			}
@@ -323,12 +359,18 @@ func c15(sum *lib.Summary) {
 			inexact := c.Sign() != 0 && new(big.Int).Rem(new(big.Int).Mul(a, b), c).Sign() != 0
 			note(fmt.Sprintf("%s fmd %s %s %s %d", k.Name, a, b, c, mode), want.cls != "" || inexact,
 				map[string]string{"type": k.Name, "expr": fmt.Sprintf("%s.multiplyDivide(%s, %s, rounding: %s)", lit(k, a), lit(k, b), lit(k, c), modeNames[mode]), "observed": renderOutcome(k, got)})
+			known := false
 			if !got.eq(want) {
-				sum.Fail(fmt.Sprintf("fix-muldiv:%s:%s", k.Name, modeNames[mode]),
+				key := fmt.Sprintf("fix-muldiv:%s:%s", k.Name, modeNames[mode])
+				if libDivEdge(k, new(big.Int).Mul(a, b), c) && edgeDeviation(got, want) {
+					key = fmt.Sprintf("fix128-division-edge:%s:multiplyDivide", k.Name)
+					known = true
+				}
+				sum.Fail(key,
 					fmt.Sprintf("%s: %s.multiplyDivide(%s, %s, rounding: %s) = %s, required %s", k.Name, lit(k, a), lit(k, b), lit(k, c), modeNames[mode], renderOutcome(k, got), renderOutcome(k, want)),
 					map[string]any{"type": k.Name, "op": "multiplyDivide", "a": lit(k, a), "b": lit(k, b), "c": lit(k, c), "rounding": modeNames[mode], "observed": renderOutcome(k, got), "required": renderOutcome(k, want)})
 			}
-			if toCoq(force) {
+			if toCoq(force) && !known {
 				cw.Add(fmt.Sprintf("CMulDiv %s %s %s %s %s %s %s", k.CoqKind(), modeCoq[mode], lib.Z(a), lib.Z(b), lib.Z(c), got.coq(), want.coq()),
 					map[string]any{"type": k.Name, "op": "multiplyDivide", "a": lit(k, a), "b": lit(k, b), "c": lit(k, c), "rounding": modeNames[mode], "observed": renderOutcome(k, got), "oracle": renderOutcome(k, want)})
 			}
@@ -467,6 +509,40 @@ func c15(sum *lib.Summary) {
 				continue
 			}
 			muldiv(k, a, b, c, false)
+		}
+	}
+	// the known division defect of the external library: fixed witnesses (always exercised) and a directed
+	// search (quotients whose low 64-bit word is 2^64-2 / 2^64-1)
+	f128k, u128k := KindByName("Fix128"), KindByName("UFix128")
+	arith(u128k, fops[3], bi("52572240717353133641610668"), bi("2849946879909258078115628637149"), false)
+	arith(f128k, fops[3], bi("3992766660831228925502767"), bi("2254669941615058148048158732"), false)
+	arith(f128k, fops[3], bi("-3992766660831228925502767"), bi("2254669941615058148048158732"), false)
+	muldiv(u128k, bi("333333333333333333333333"), bi("18446744073709551615"), bi("333333333333333333333334"), false)
+	muldiv(f128k, bi("43002460074744656952680993475400"), bi("297265020023478846155763"), bi("-692974711640111925054066961137456971"), false)
+	m64 := new(big.Int).Sub(two(64), big.NewInt(1))
+	for _, k := range []NKind{f128k, u128k} {
+		S := k.Factor()
+		for i := 0; i < nstraddle; i++ {
+			target := new(big.Int).Add(new(big.Int).Lsh(rng.BigBits(rng.Intn(60)), 64), m64)
+			b := rng.BigBits(2 + rng.Intn(k.Bits-3))
+			if b.Sign() == 0 {
+				continue
+			}
+			a := new(big.Int).Quo(new(big.Int).Mul(b, target), S)
+			if k.Signed && rng.Bool() {
+				a.Neg(a)
+			}
+			if k.InRange(a) && k.InRange(b) {
+				arith(k, fops[3], a, b, false)
+			}
+			c3, a3 := rng.BigBits(2+rng.Intn(k.Bits-3)), rng.BigBits(2+rng.Intn(k.Bits-3))
+			if c3.Sign() == 0 || a3.Sign() == 0 {
+				continue
+			}
+			b3 := new(big.Int).Quo(new(big.Int).Mul(c3, target), a3)
+			if k.InRange(a3) && k.InRange(b3) && k.InRange(c3) {
+				muldiv(k, a3, b3, c3, false)
+			}
 		}
 	}
 	cw.Close()
